@@ -5,7 +5,8 @@ documents the case and result format; in mode `det` this driver must print the i
   det <maxBlockSize> <ev;ev;...>
       ev = <w>.<op>            foreground operation of worker w (C08 op syntax, plus
                                flush,<path>,<0|1> and save,<mask>,<0|1>,<m|s>)
-         | c,<g>,<0|1>         completion of background write g (1 = PutB succeeded)
+         | c,<sel>,<0|1>       completion of the (sel mod n)-th of the n unfinished background writes
+                               (1 = PutB succeeded)
   free <maxBlockSize> <throttle> <seed> <failpct> <prologue>|<worker 0 ops>|<worker 1 ops>|...
       the model prints what the sequential specification gives each worker (C13_linearizable).
 -/
@@ -183,7 +184,18 @@ def emit (max : Nat) (r : Run) (s' : St) (head : String) : Run :=
   if sh == r.last then { s := s', last := r.last, outs := (head ++ g) :: r.outs }
   else { s := s', last := sh, outs := (head ++ g ++ "#" ++ sh) :: r.outs }
 
-def runEv (max : Nat) (r : Run) (e : Ev) : Run :=
+/-- `c,<sel>,<ok>` names the (sel mod n)-th of the n currently unfinished background writes
+(ascending id); with n = 0 it names a write that does not exist. -/
+def resolve (s : St) : Ev → Ev
+  | Ev.complete sel ok =>
+    let opens := (s.groups.zipIdx.filter (fun gi => gi.1.isOpen)).map (·.2)
+    (match opens[sel % opens.length]? with
+     | some g => Ev.complete g ok
+     | none => Ev.complete s.groups.length ok)
+  | e => e
+
+def runEv (max : Nat) (r : Run) (e0 : Ev) : Run :=
+  let e := resolve r.s e0
   let (s', o) := evStep md5Loc max r.s e
   let head := match e, o with
     | Ev.fg _ op, Out.res res => resStr res ++ ptrAfter s'.fs op res
